@@ -147,6 +147,13 @@ func (r *Reader) Close() {
 	r.outbounds = nil
 }
 
+func (r *Reader) closed() bool {
+	r.mu.Lock()
+	defer r.mu.Unlock()
+
+	return r.done
+}
+
 func (r *Reader) write(pck *Packet, writer *Writer, link uint64, write uint64) bool {
 	r.mu.Lock()
 	defer r.mu.Unlock()
